@@ -37,12 +37,12 @@ DEVS = ["OwnStreamNotSubtracted", "NoiseNotFiltered", "ExtIntPowerIgnored", "JpR
 F_LIST = "ListPrecodersScaledAlongStreams"
 INVARIANTS = ["TypeOK", "CachesFresh", "NonNegative", "ScaleInvariant", "QScales", "QHermitianPSD", "QIsSumOfLinks",
               "DenIsQuadraticForm", "BIsQPlusOwn", "AlgMatches", "SolverZeroForcing", "SolverAgrees", "SolverAlgMatches",
-              "CapacityTerms"]
+              "CapacityTerms", "CapVecWellFormed"]
 EXH_COUNT = 3888  # = ExhCount of the specification
 
 
-def _cfg(K, nr, nt, ns, nte=(), jp=False, amps=2):
-    return dict(K=K, nr=list(nr), nt=list(nt), ns=list(ns), nte=list(nte), jp=jp, amps=amps)
+def _cfg(K, nr, nt, ns, nte=(), jp=False, amps=2, zf=False):
+    return dict(K=K, nr=list(nr), nt=list(nt), ns=list(ns), nte=list(nte), jp=jp, amps=amps, zf=zf)
 
 
 # amps = 1: integral amplitude alphabets (wherever the solver's two-stream zero forcing or K = 3
@@ -68,12 +68,25 @@ CFG_K3 = [
     _cfg(3, [2, 2, 2], [2, 2, 2], [2, 2, 2], nte=[2, 1], jp=True, amps=1),  # 16
     _cfg(3, [1, 2, 2], [2, 1, 2], [1, 2, 1], jp=True, amps=1),           # 17
 ]
-CFGS = CFG_K2 + CFG_K3
+# the aligned regime (zf): single-antenna receivers, the precoder of every user is an exact null vector of the channels
+# towards the other receivers -> interference exactly zero; SINR = signal / noise (any magnitude) or infinite
+CFG_ZF = [
+    _cfg(2, [1, 1], [2, 1], [1, 1], jp=True, zf=True),                   # 18 joint processing (block diagonalisation in miniature)
+    _cfg(2, [1, 1], [2, 2], [1, 1], zf=True),                            # 19 interference channel + solver
+    _cfg(3, [1, 1, 1], [1, 1, 1], [1, 1, 1], jp=True, amps=1, zf=True),  # 20 three users, joint processing
+    _cfg(2, [1, 1], [1, 2], [1, 1], nte=[1], jp=True, zf=True),          # 21 joint processing + external source (pe may be 0)
+    _cfg(3, [1, 1, 1], [3, 3, 3], [1, 1, 1], amps=1, zf=True),           # 22 three users, interference channel + solver
+    _cfg(2, [2, 2], [2, 2], [2, 2], jp=True, amps=3, zf=True),           # 23 two streams each: block-diagonalising precoders + zero-forcing filters
+    _cfg(2, [2, 2], [4, 4], [2, 2], amps=3, zf=True),                    # 24 the same on the interference channel (thorough)
+]
+CFGS = CFG_K2 + CFG_K3 + CFG_ZF
 # (first configuration, last configuration, case numbers 1..n): one TLC process per entry (and per 100 cases)
-QUICK_COUNTS = [(1, 1, 44), (2, 2, 44), (3, 4, 34), (5, 5, 44), (6, 6, 36), (7, 7, 40), (8, 9, 28)]
+QUICK_COUNTS = [(1, 1, 44), (2, 2, 44), (3, 4, 34), (5, 5, 44), (6, 6, 36), (7, 7, 40), (8, 9, 28), (18, 21, 20), (23, 23, 36)]
+QUICK_CAPVEC = 40           # capacity vectors 1..n
+THOROUGH_CAPVEC = 400
 THOROUGH_COUNTS = [(1, 1, 160), (2, 2, 160), (3, 3, 120), (4, 4, 120), (5, 5, 160), (6, 6, 120), (7, 7, 160), (8, 8, 120),
                    (9, 9, 100), (10, 10, 600), (11, 11, 400), (12, 12, 300), (13, 13, 400), (14, 14, 300), (15, 15, 400),
-                   (16, 16, 300), (17, 17, 300)]
+                   (16, 16, 300), (17, 17, 300), (18, 19, 200), (20, 22, 150), (23, 23, 300), (24, 24, 150)]
 
 # Chains: one channel object and one solver object serve the consecutive cases.  The partitions of a chain have
 # the same number of users / sources and the same antenna TOTALS but different per-user counts (a stale per-antenna
@@ -103,9 +116,9 @@ DEV_WHERE = {"OwnStreamNotSubtracted": ("star", 1, 1), "NoiseNotFiltered": ("sta
              "PowerNoneKeepsCaches": ("chain", 1, 1), "PlExpansionReusedOnEqualShape": ("chain", 1, 1)}
 
 
-def model(clo, chi, lo, hi, seed, dev=(), emit=True, hlo=1, hhi=0):
+def model(clo, chi, lo, hi, seed, dev=(), emit=True, hlo=1, hhi=0, vlo=1, vhi=0):
     defs = {"Cfgs": tlc.tla(CFGS), "Chains": tlc.tla(CHAINS), "Dev": tlc.tla({d: (d in dev) for d in DEVS})}
-    cfg = tlc.cfg_text(constants={"CLo": str(clo), "CHi": str(chi), "HLo": str(hlo), "HHi": str(hhi),
+    cfg = tlc.cfg_text(constants={"CLo": str(clo), "CHi": str(chi), "HLo": str(hlo), "HHi": str(hhi), "VLo": str(vlo), "VHi": str(vhi),
                                   "Lo": str(lo), "Hi": str(hi), "Seed": str(seed)},
                        defs=defs, invariants=INVARIANTS, action_constraints=["Emit"] if emit else [])
     return cfg, defs
@@ -133,9 +146,20 @@ def _objarr(mats):
     return a
 
 
-def _close(x, xhat):
+HUGE = 1e9   # an infinite SINR may be reported as +inf or as a huge positive number (denominator = rounding noise)
+
+
+def _close(x, xhat, huge=HUGE):
+    """|x - x^| <= TOL max(1, |x^|); where x^ is +inf: x must be +inf or >= huge (never negative, never NaN)"""
     x = np.asarray(x)
     xhat = np.asarray(xhat)
+    if x.shape == xhat.shape and x.size and np.issubdtype(xhat.dtype, np.floating) and np.any(np.isposinf(xhat)):
+        pinf = np.isposinf(xhat)
+        xr = np.real(x)
+        if not np.all((xr[pinf] >= huge) & ~np.isnan(xr[pinf])):
+            return False
+        x = np.where(pinf, 0.0, x)
+        xhat = np.where(pinf, 0.0, xhat)
     if x.shape != xhat.shape:
         return False
     if x.size == 0:
@@ -149,8 +173,30 @@ def _close(x, xhat):
 
 
 def _log2_frac(q):
-    """log2 of an exact positive rational"""
+    """log2 of an exact positive rational (or +inf)"""
+    if q == math.inf:
+        return math.inf
     return math.log2(q.numerator) - math.log2(q.denominator)
+
+
+def _ratinf(t):
+    """exact rational, <<1, 0>> = +infinity"""
+    return math.inf if int(t[1]) == 0 else Fraction(int(t[0]), int(t[1]))
+
+
+def _cap_want(one_plus_terms):
+    """(expected sum capacity, threshold when it is infinite) from exact terms 1 + SINR (Fractions or inf)"""
+    fin = sum(_log2_frac(q) for q in one_plus_terms if q != math.inf)
+    ninf = sum(1 for q in one_plus_terms if q == math.inf)
+    return (math.inf, fin + ninf * math.log2(HUGE)) if ninf else (fin, HUGE)
+
+
+# MultiUserChannelMatrix._calc_SINR_k / _calc_JP_SINR_k_impl divide Python complex numbers: an EXACTLY zero denominator
+# raises ZeroDivisionError where the IA solver reports inf (repaired there in /repo df97db4).  Proposed repair:
+# notes/fixes/C11-channel-sinr-zero-denominator.patch.  Until it is applied the exception is tolerated (and counted)
+# for streams whose exact SINR is infinite; set to False afterwards.
+TOLERATE_ZERO_DIVISION = True
+_TOLERATED = [0]
 
 
 def _flat(rows):
@@ -177,7 +223,8 @@ class _Solver:
 # ------------------------------------------------------------------ representations of one number / one array
 NOISE_VALUE = {"none": None, "zero": Fraction(0), "half": Fraction(1, 2), "one": Fraction(1), "two": Fraction(2)}
 IMPLEMENTED_LAWS = {"ArgumentsUnchanged", "EarlierResultsUnchanged", "ResultsAreCopies", "QueryIsPure",
-                    "RepresentationIrrelevant", "BystanderUnaffected", "RejectedChangesNothing", "AliasCoherent"}
+                    "RepresentationIrrelevant", "BystanderUnaffected", "RejectedChangesNothing", "AliasCoherent",
+                    "CapacityPermutationInvariant", "CapacityAdditive"}
 # (set_receive_filters used to clear the filters before rejecting bad arguments; repaired in /repo 4cafe15)
 CHECK_REJECTED_RECEIVE_FILTERS = True
 
@@ -309,7 +356,7 @@ def _rot(inp):
     return inp["id"][0] * 7 + inp["id"][1]
 
 
-def build_channel(inp, gain=1.0, keep=None):
+def build_channel(inp, gain=1.0, keep=None, noise_factor=1.0):
     """a fresh channel object for the case; gain multiplies every path-loss power and the noise variance.
     keep (a Session) receives the arrays handed over."""
     from pyphysim.channels import multiuser
@@ -319,8 +366,8 @@ def build_channel(inp, gain=1.0, keep=None):
     if inp["pl"] or gain != 1.0:
         pl = _set_pathloss(ch, inp, gain, _rot(inp))
     nv = NOISE_VALUE[inp["noise"]]
-    if gain != 1.0:
-        ch.noise_var = None if nv is None else float(nv) * gain
+    if gain != 1.0 or noise_factor != 1.0:
+        ch.noise_var = None if nv is None else float(nv) * gain * noise_factor
     else:
         ch.noise_var = scalar_as(nv, _rot(inp))       # RepresentationIrrelevant: int / numpy integer / float32 / ...
     if keep is not None:
@@ -443,25 +490,29 @@ def compare(sess, case, light=False):
     rot = _rot(inp)
     tag = "" if inp["op"]["kind"] == "fresh" else f"[chain step {inp['step']} {inp['op']['kind']}/{inp['op']['pl']}/{inp['op']['pw']}] "
     mine = []     # results returned during this comparison: (what, object, snapshot)
+    zde_ok = [False]
+    # the exhaustive 1x1 family is large: two of three of its cases skip the secondary call variants (list arguments,
+    # internal Bkl, noise-only scaling, list-fed and rescaled solver); every case keeps SINR / Q / scale law / solver / frame laws
+    lean = inp["id"][0] == 0 and inp["id"][1] % 3 != 0
 
-    def cmp(what, got, want):
+    def cmp(what, got, want, huge=HUGE):
         n[0] += 1
         try:
-            ok = _close(got, want)
+            ok = _close(got, want, huge)
         except Exception as ex:  # shape/type surprises are mismatches, not harness errors
             ok = False
             what += f" ({type(ex).__name__}: {ex})"
         if not ok:
             bad.append(f"{tag}{what}: code {np.asarray(got).tolist()!r:.200} expected {np.asarray(want).tolist()!r:.200}")
 
-    def cmp_rows(what, got, want_rows):
+    def cmp_rows(what, got, want_rows, huge=HUGE):
         got = list(got)
         if len(got) != len(want_rows):
             n[0] += 1
             bad.append(f"{tag}{what}: {len(got)} users returned, expected {len(want_rows)}")
             return
         for k in range(len(want_rows)):
-            cmp(f"{what}[user {k}]", np.asarray(got[k], dtype=float), np.array(want_rows[k], dtype=float))
+            cmp(f"{what}[user {k}]", np.asarray(got[k], dtype=float), np.array(want_rows[k], dtype=float), huge)
 
     def guarded(what, f, *args, **kw):
         """one public call: exceptions are mismatches; ArgumentsUnchanged; the result is remembered"""
@@ -470,6 +521,9 @@ def compare(sess, case, light=False):
             res = f(*args, **kw)
         except Exception as ex:
             n[0] += 1
+            if isinstance(ex, ZeroDivisionError) and zde_ok[0] and TOLERATE_ZERO_DIVISION:
+                _TOLERATED[0] += 1            # exactly zero denominator of an infinite SINR (see TOLERATE_ZERO_DIVISION)
+                return None
             bad.append(f"{tag}{what} raised {type(ex).__name__}: {ex}")
             return None
         if snap is not None:
@@ -492,8 +546,9 @@ def compare(sess, case, light=False):
     # external power: the default argument (1.0) is exercised by leaving pe out on every other case
     pekw = {} if (not ext or (pe == 1 and variant == 0)) else {"pe": scalar_as(pe, rot)}
 
-    sinr = [[float(_rat(x)) for x in row] for row in out["sinr"]]
-    one_plus = [[_rat(x) for x in row] for row in out["onePlus"]]
+    sinr = [[float(_ratinf(x)) for x in row] for row in out["sinr"]]
+    one_plus = [[_ratinf(x) for x in row] for row in out["onePlus"]]
+    zde_ok[0] = any(x == math.inf for x in _flat(sinr)) or (out["sol"]["ok"] and any(int(x[1]) == 0 for x in _flat(out["sol"]["sinr"])))
     Q = [_mat(out["Q"][k]) for k in range(K)]
 
     # --- the channel object
@@ -504,7 +559,7 @@ def compare(sess, case, light=False):
     got = guarded(name, getattr(ch, jname), fullF, Uo, **pekw)
     if got is not None:
         cmp_rows(name, got, sinr)
-    if variant == 1 and not light:
+    if variant == 1 and not light and not lean:
         got = guarded(name + " with list arguments", getattr(ch, jname), list(fullF), list(U), **pekw)
         if got is not None:
             cmp_rows(name + " with list arguments", got, sinr)
@@ -517,7 +572,7 @@ def compare(sess, case, light=False):
             if g.shape == Q[k].shape and not np.allclose(g, g.conj().T, rtol=0, atol=TOL):
                 bad.append(f"{tag}{qname}[user {k}] is not Hermitian")
     # internal: the per-stream covariance the SINR is computed from (anchored mechanism)
-    for k in range(K if not light else 0):
+    for k in range(K if not (light or lean) else 0):
         def bkl():
             if ext:
                 rek = ch.calc_cov_matrix_extint_plus_noise(float(pe))[k]
@@ -533,7 +588,10 @@ def compare(sess, case, light=False):
     # homogeneous in the filter scale c and in the channel gain (amplitude a, noise x a^2); the exact SINRs are
     # therefore unchanged for any magnitude and Q is multiplied by a^2.  One of four extreme settings per case.
     ga2 = float(_rat(inp["ga"]) ** 2)
-    ex_c, ex_gain = [(1e-9, 1.0), (1e9, 1.0), (1.0, 1e-17 * ga2), (1.0, 1e17 * ga2)][(inp["id"][0] + inp["id"][1]) % 4]
+    ex_i = (inp["id"][0] + inp["id"][1]) % 4
+    if zde_ok[0] and ex_i < 2:
+        ex_i += 2          # infinite SINRs: take a gain factor (irrational amplitudes: the denominator becomes rounding noise)
+    ex_c, ex_gain = [(1e-9, 1.0), (1e9, 1.0), (1.0, 1e-17 * ga2), (1.0, 1e17 * ga2)][ex_i]
     for label, c, gain in ((("", sc, 1.0), (" (extreme)", sc * ex_c, ex_gain)) if not light else ()):
         ch2 = ch if gain == 1.0 else guarded("channel with gain %g" % gain, lambda: build_channel(inp, gain))
         if ch2 is None:
@@ -548,20 +606,54 @@ def compare(sess, case, light=False):
                 if got is not None:
                     cmp(f"{qname}[user {k}] / gain with gain x {gain:g}", np.asarray(got) / gain, Q[k])
 
+    # --- the noise variance alone x 1e-5 / 1e-3 / 1e+3: only the noise term of TLC's exact power table scales, the
+    # SINR is sig / (intf + ext + t nse) (second half of ScaleInvariant) - tiny noise gives large finite SINRs.
+    # (The code forms the denominator as total - own stream: its relative error grows like eps (1 + SINR); the
+    # tolerance of this comparison is max(1e-9, 1e-13 (1 + SINR)).)
+    from pyphysim.util.misc import calc_shannon_sum_capacity
+    nv = NOISE_VALUE[inp["noise"]]
+    if not light and not lean and nv:
+        e10 = [-5, -3, 3][rot % 3]
+        t = Fraction(10) ** e10
+        want = []
+        for row in out["pow"]:
+            want.append([])
+            for p in row:
+                den = _rat(p["intf"]) + _rat(p["ext"]) + t * _rat(p["nse"])
+                want[-1].append(float(_rat(p["sig"]) / den) if den else math.inf)
+        chn = guarded("channel with noise x 1e%d" % e10, lambda: build_channel(inp, 1.0, noise_factor=float(t)))
+        if chn is not None:
+            what = f"{name} with the noise variance x 1e{e10}"
+            got = guarded(what, getattr(chn, jname), fullF, Uo, **pekw)
+            if got is not None:
+                n[0] += 1
+                try:
+                    g = np.hstack([np.asarray(x, dtype=float) for x in got])
+                    w = np.array(_flat(want), dtype=float)
+                    okn = g.shape == w.shape and bool(np.all(np.abs(g - w) <= np.maximum(TOL, 1e-13 * (1 + w)) * np.maximum(1.0, w)))
+                except Exception:
+                    okn = False
+                if not okn:
+                    bad.append(f"{tag}{what}: code {[np.asarray(x).tolist() for x in got]!r:.200} expected {want!r:.200}")
+            terms = [1 + _rat(p["sig"]) / (_rat(p["intf"]) + _rat(p["ext"]) + t * _rat(p["nse"])) for row in out["pow"] for p in row]
+            cw, ch_huge = _cap_want(terms)
+            got = guarded("calc_shannon_sum_capacity (noise x 1e%d)" % e10, calc_shannon_sum_capacity, np.array(_flat(want), dtype=float))
+            if got is not None:
+                cmp("calc_shannon_sum_capacity of the SINRs with the noise variance x 1e%d" % e10, got, cw, ch_huge)
+
     # sum capacity of exact SINRs through util.misc
     if not light:
-        from pyphysim.util.misc import calc_shannon_sum_capacity
-        cap = sum(_log2_frac(q) for q in _flat(one_plus))
+        cap, cap_huge = _cap_want(_flat(one_plus))
         got = guarded("calc_shannon_sum_capacity", calc_shannon_sum_capacity, np.array(_flat(sinr), dtype=float))
         if got is not None:
-            cmp("calc_shannon_sum_capacity", got, cap)
+            cmp("calc_shannon_sum_capacity", got, cap, cap_huge)
 
     # --- the IA solver base class (plain interference channel only)
     sol = out["sol"]
     s = sess.solver
     if sol["ok"] and s is not None:
-        ssinr = [[float(_rat(x)) for x in row] for row in sol["sinr"]]
-        sq = [[_rat(x) for x in row] for row in sol["sinr"]]
+        ssinr = [[float(_ratinf(x)) for x in row] for row in sol["sinr"]]
+        sq = [[_ratinf(x) for x in row] for row in sol["sinr"]]
         P = np.array([float(_rat(a) ** 2) for a in inp["pa"]])
         if inp["op"]["kind"] != "fresh":     # (fresh cases may hand over full_F directly; P then stays at its default)
             n[0] += 1
@@ -580,12 +672,13 @@ def compare(sess, case, light=False):
                 return
             got = guarded("solver.calc_SINR_in_dB" + label, s.calc_SINR_in_dB)
             if got is not None:
-                want = [[(10.0 * (math.log10(q.numerator) - math.log10(q.denominator)) if q > 0 else -np.inf)
-                         for q in row] for row in sq]
-                cmp_rows("solver.calc_SINR_in_dB" + label, got, want)
+                want = [[(math.inf if q == math.inf else 10.0 * (math.log10(q.numerator) - math.log10(q.denominator)) if q > 0
+                          else -np.inf) for q in row] for row in sq]
+                cmp_rows("solver.calc_SINR_in_dB" + label, got, want, 10.0 * math.log10(HUGE))
             got = guarded("solver.calc_sum_capacity" + label, s.calc_sum_capacity)
             if got is not None:
-                cmp("solver.calc_sum_capacity" + label, got, sum(_log2_frac(1 + q) for q in _flat(sq)))
+                scap, scap_huge = _cap_want([1 + q for q in _flat(sq)])
+                cmp("solver.calc_sum_capacity" + label, got, scap, scap_huge)
             # the two implementations agree: the channel object fed with the solver's full filters
             got = guarded("channel.calc_SINR(solver.full_F, solver.full_W)" + label,
                           lambda: s._multiUserChannel.calc_SINR(s.full_F, s.full_W))
@@ -618,7 +711,7 @@ def compare(sess, case, light=False):
                 s2.set_receive_filters(W_H=_objarr([u.conj().T for u in Us]))
             return s2
 
-        if not light:
+        if not light and not lean:
             # the same solver fed with Python LISTS (documented input type of set_precoders / set_receive_filters).
             # A mismatch here - and only here - has the signature of finding ListPrecodersScaledAlongStreams.
             mark = len(bad)
@@ -664,7 +757,7 @@ def compare(sess, case, light=False):
         got = guarded("solver.calc_SINR (asked again)", s.calc_SINR)
         if got is not None:
             cmp_rows("solver.calc_SINR (asked again after writing into returned values)", got,
-                     [[float(_rat(x)) for x in row] for row in sol["sinr"]])
+                     [[float(_ratinf(x)) for x in row] for row in sol["sinr"]])
     return n[0], bad, known
 
 
@@ -745,9 +838,14 @@ def solver_alias_probe(sess, step_case):
         try:
             mine = np.hstack(list(s.calc_SINR()))
             ref = np.hstack(list(s._multiUserChannel.calc_SINR(s.full_F, s.full_W)))
-            if not _close(mine, ref):
+            if not (_close(mine, ref) or (np.all(np.isfinite(mine) == np.isfinite(ref)) and _close(mine[np.isfinite(mine)], ref[np.isfinite(ref)]))):
                 bad.append(f"[alias probe after step {step_case['inp']['step']}: write into a matrix handed to the solver] (rel) "
                            f"solver.calc_SINR {mine.tolist()} is not the SINR of the solver's own full_F / full_W {ref.tolist()}")
+        except ZeroDivisionError as ex:
+            if TOLERATE_ZERO_DIVISION:
+                _TOLERATED[0] += 1
+            else:
+                bad.append(f"[alias probe: write into a matrix handed to the solver] raised {type(ex).__name__}: {ex}")
         except Exception as ex:
             bad.append(f"[alias probe: write into a matrix handed to the solver] raised {type(ex).__name__}: {ex}")
         m[0, 0] = old
@@ -755,9 +853,79 @@ def solver_alias_probe(sess, step_case):
     return n + len(arrs), bad + ["[after undoing the write into the solver's matrices] " + b for b in bad2], known
 
 
+def run_capvec(case):
+    """A capacity vector: calc_shannon_sum_capacity and IASolverBaseClass.calc_sum_capacity (through a subclass whose
+    calc_SINR reports exactly these SINRs) against sum log2(1 + SINR) of the exact numbers; order and split laws."""
+    from pyphysim.util.misc import calc_shannon_sum_capacity
+    from pyphysim.channels import multiuser
+    inp = case["inp"]
+    vals = [Fraction(int(m), int(d)) * Fraction(10) ** int(e) for m, d, e in inp["cv"]]
+    want = sum(_log2_frac(1 + v) for v in vals)
+    cut = inp["cut"]
+    w1 = sum(_log2_frac(1 + v) for v in vals[:cut])
+    rot = _rot(inp)
+    x = np.array([float(v) for v in vals], dtype=float)
+    if rot % 3 == 1 and all(v.denominator == 1 and v < 2 ** 62 for v in vals):
+        x = x.astype(np.int64)                 # integral SINRs as integers
+    bad = []
+    n = [0]
+
+    def call(what, f, arg):
+        n[0] += 1
+        snap = _snapshot(arg)
+        try:
+            r = f(arg)
+        except Exception as ex:
+            bad.append(f"{what} raised {type(ex).__name__}: {ex}")
+            return None
+        if not _same(snap, arg):
+            bad.append(f"ArgumentsUnchanged: {what} altered its argument")
+        return r
+
+    def chk(what, got, w):
+        if got is None:
+            return
+        n[0] += 1
+        if not _close(got, w):
+            bad.append(f"{what} ({len(vals)} streams, SINRs {min(x):.3g} .. {max(x):.3g}): code {got!r} expected {w!r}")
+
+    chk("calc_shannon_sum_capacity", call("calc_shannon_sum_capacity", calc_shannon_sum_capacity, x), want)
+    chk("calc_shannon_sum_capacity of the reversed vector (CapacityPermutationInvariant)",
+        call("calc_shannon_sum_capacity", calc_shannon_sum_capacity, x[::-1]), want)
+    if 0 < cut < len(vals):
+        a = call("calc_shannon_sum_capacity", calc_shannon_sum_capacity, x[:cut])
+        b = call("calc_shannon_sum_capacity", calc_shannon_sum_capacity, x[cut:].copy())
+        if a is not None and b is not None:
+            chk(f"calc_shannon_sum_capacity(first {cut}) + calc_shannon_sum_capacity(rest) (CapacityAdditive)", a + b, want)
+            chk(f"calc_shannon_sum_capacity(first {cut})", a, w1)
+    if len(vals) == 1:
+        chk("calc_shannon_sum_capacity of a Python scalar", call("calc_shannon_sum_capacity", calc_shannon_sum_capacity, float(x[0])), want)
+    # the solver's sum capacity for the same SINRs: a solver whose calc_SINR reports them, spread over three users
+    ch = multiuser.MultiUserChannelMatrix()
+    ch.init_from_channel_matrix(np.eye(3, dtype=complex), np.array([1, 1, 1]), np.array([1, 1, 1]), 3)
+    parts = np.empty(3, dtype=object)
+    xf = np.asarray(x, dtype=float)
+    for i in range(3):
+        parts[i] = xf[i::3].copy()
+
+    class Reporting(_Solver.get()):
+        def calc_SINR(self):
+            return parts
+    n[0] += 1
+    try:
+        chk("IASolverBaseClass.calc_sum_capacity for the same SINRs", Reporting(ch).calc_sum_capacity(), want)
+    except Exception as ex:
+        bad.append(f"IASolverBaseClass.calc_sum_capacity raised {type(ex).__name__}: {ex}")
+    return n[0], bad, []
+
+
 def run_unit(unit):
     """unit = list of cases: one star case, or the consecutive cases of a chain (sorted by step) followed by its
     aliasing leaves.  Returns a list of (comparisons, bad, known), one per case."""
+    if unit[0]["inp"]["op"]["kind"] == "capvec":
+        with np.errstate(all="ignore"):
+            return [run_capvec(unit[0])]
+    tol0 = _TOLERATED[0]
     steps = [c for c in unit if c["inp"]["op"]["kind"] != "scribble"]
     leaves = {c["inp"]["step"]: c for c in unit if c["inp"]["op"]["kind"] == "scribble"}
     res = {}
@@ -774,7 +942,12 @@ def run_unit(unit):
                     bF = _objarr([pa[k] * _mat(inp["F"][k]) for k in range(inp["K"])])
                     bU = _objarr([_mat(inp["U"][k]) for k in range(inp["K"])])
                     bcall = (lambda b=bch, f=bF, u=bU, jp=inp["jp"]: (b.calc_JP_SINR if jp else b.calc_SINR)(f, u))
-                    sess.bystander = (bch, bcall, _snapshot(bcall()))
+                    try:
+                        sess.bystander = (bch, bcall, _snapshot(bcall()))
+                    except ZeroDivisionError:
+                        if not TOLERATE_ZERO_DIVISION:
+                            raise
+                        _TOLERATED[0] += 1
             except Exception as ex:
                 res[id(case)] = (1, [f"step {inp['step']} ({inp['op']}) raised {type(ex).__name__}: {ex}"], [])
                 break
@@ -787,7 +960,9 @@ def run_unit(unit):
                     res[id(leaf)] = (r1[0] + r2[0], r1[1] + r2[1], r1[2] + r2[2])
                 except Exception as ex:
                     res[id(leaf)] = (1, [f"alias probe after step {inp['step']} raised {type(ex).__name__}: {ex}"], [])
-    return [res.get(id(c), (0, [], [])) for c in unit]
+    outl = [res.get(id(c), (0, [], [])) for c in unit]
+    outl[0] = tuple(outl[0]) + (_TOLERATED[0] - tol0,)      # tolerated ZeroDivisionErrors of the unit
+    return outl
 
 
 # ------------------------------------------------------------------------------- the check
@@ -812,8 +987,12 @@ def plan(tier):
             jobs.append((f"chain/cfg{h1}-{h2}/{lo}-{hi}", 1, 0, lo, hi, h1, h2))
             lo = hi + 1
 
+    jobs.append(("capvec", 1, 0, 1, 0, 1, 0, 1, THOROUGH_CAPVEC if thorough else QUICK_CAPVEC))
+
     def weight(j):     # rough cost: longest first
         ncase = j[4] - j[3] + 1
+        if len(j) > 7:
+            return 1
         if j[5] <= j[6]:
             return ncase * (j[6] - j[5] + 1) * 60
         return ncase * (1 if j[1] == 0 else 12 * (j[2] - j[1] + 1))
@@ -862,8 +1041,9 @@ def run(ctx):
     jobs = plan(ctx.tier)
 
     def tlc_job(j):
-        label, clo, chi, lo, hi, hlo, hhi = j
-        cfg, defs = model(clo, chi, lo, hi, seed, hlo=hlo, hhi=hhi)
+        label, clo, chi, lo, hi, hlo, hhi = j[:7]
+        vlo, vhi = (j[7], j[8]) if len(j) > 7 else (1, 0)
+        cfg, defs = model(clo, chi, lo, hi, seed, hlo=hlo, hhi=hhi, vlo=vlo, vhi=vhi)
         return tlc.run(MODULE, cfg, defs=defs, heap="1g")   # -coverage is prohibitively slow on the recursive matrix operators
 
     def dev_job(dev):
@@ -902,24 +1082,34 @@ def run(ctx):
     for e in cases:
         kind = e["inp"]["op"]["kind"]
         act = ("PickExhaustive" if e["inp"]["id"][0] == 0 else "PickSeeded") if kind == "fresh" else \
-              ("ChainStart" if kind == "init" else "ChainLeaf" if kind == "scribble" else "ChainStep")
+              ("ChainStart" if kind == "init" else "ChainLeaf" if kind == "scribble" else
+               "PickCapVec" if kind == "capvec" else "ChainStep")
         ctx.actions[act] = ctx.actions.get(act, 0) + 1
         missing = set(e["out"]["req"]) - IMPLEMENTED_LAWS
         if missing:
             raise tlc.TlcError(f"the specification requires laws the replay does not implement: {sorted(missing)}")
-    ctx.require_actions(["PickExhaustive", "PickSeeded", "ChainStart", "ChainStep", "ChainLeaf"])
+    ctx.require_actions(["PickExhaustive", "PickSeeded", "ChainStart", "ChainStep", "ChainLeaf", "PickCapVec"])
     ctx.notes["required_laws"] = sorted({l for e in cases for l in e["out"]["req"]})
     units = units_of(cases)
     res = pool_map(run_unit, units, chunksize=max(1, len(units) // 128))
     comparisons = 0
     solver_cases = 0
     chain_steps = {}
+    tolerated = 0
+    infinite = 0
     for unit, ures in zip(units, res):
-        for case, (ncmp, bad, known) in zip(unit, ures):
+        for case, r in zip(unit, ures):
+            ncmp, bad, known = r[:3]
+            tolerated += r[3] if len(r) > 3 else 0
             inp = case["inp"]
             comparisons += ncmp
-            solver_cases += 1 if (case["out"]["sol"]["ok"] and solver_applies(inp)) else 0
             ctx.ok(key=f"{seed}:{inp['id'][0]}:{inp['id'][1]}")
+            if inp["op"]["kind"] == "capvec":
+                if bad:
+                    ctx.violation(f"capacity vector {inp['id']}: " + "; ".join(bad[:3]), {"unit": [case], "mismatches": bad[:10]})
+                continue
+            solver_cases += 1 if (case["out"]["sol"]["ok"] and solver_applies(inp)) else 0
+            infinite += 1 if any(int(x[1]) == 0 for row in case["out"]["sinr"] for x in row) else 0
             if inp["chain"]:
                 k = f"{inp['op']['kind']}/{inp['op']['pl']}/{inp['op']['pw']}"
                 chain_steps[k] = chain_steps.get(k, 0) + 1
@@ -936,10 +1126,12 @@ def run(ctx):
     ctx.notes["cases_per_family"] = per_family
     ctx.notes["comparisons"] = comparisons
     ctx.notes["cases_with_solver"] = solver_cases
+    ctx.notes["cases_with_an_infinite_sinr"] = infinite
+    ctx.notes["zero_division_errors_tolerated"] = tolerated
     ctx.notes["chain_steps_executed"] = chain_steps
     ctx.notes["exhaustive_scope"] = ("K=2, 1x1 blocks: all 6^4 channel matrices over {0,1,-1,i,-i,1+i} x noise {None,0,1/2}; "
                                      "other families and the chains are seeded samples of the stated domain")
-    stars = [u[0] for u in units if len(u) == 1 and not u[0]["inp"]["chain"]]
+    stars = [u[0] for u in units if len(u) == 1 and not u[0]["inp"]["chain"] and u[0]["inp"]["op"]["kind"] == "fresh"]
     mid = stars[len(stars) // 2]
     ctx.sample({"id": mid["inp"]["id"], "K": mid["inp"]["K"], "Nr": mid["inp"]["nr"], "Nt": mid["inp"]["nt"],
                 "Ns": mid["inp"]["ns"], "noise": mid["inp"]["noise"], "sinr_exact": mid["out"]["sinr"]})
@@ -954,7 +1146,8 @@ def replay(ctx, data):
     unit = c["unit"] if "unit" in c else [c["case"]]
     res = run_unit(unit)
     ctx.notes["comparisons"] = sum(r[0] for r in res)
-    for case, (ncmp, bad, known) in zip(unit, res):
+    for case, r in zip(unit, res):
+        ncmp, bad, known = r[:3]
         ctx.ok(key=str(case["inp"]["id"]))
         if known:
             ctx.finding(F_LIST, f"case {case['inp']['id']}: " + "; ".join(known[:2]), {"unit": unit, "mismatches": known[:6]})
